@@ -49,7 +49,7 @@ func classifyPanic(r any) string {
 func borderGrids(tier string) []borderGrid {
 	var gs []borderGrid
 	syn := func(name string, tw uint, m int, x0, y0 float64, corner string, z int) {
-		g := newSynGridAxes(tw, m, x0, y0, corner, z+1, strings.Contains(name, "swapped"))
+		g := newSynGridFull(tw, m, x0, y0, corner, z+1, strings.Contains(name, "swapped"), strings.Contains(name, "bbox"))
 		pixInt, ok := ratInt(new(big.Rat).SetFloat64(g.pix(g.levelOf(z))))
 		if !ok || pixInt%4 != 0 {
 			fatal("synthetic grid %s not exact", name)
@@ -63,6 +63,7 @@ func borderGrids(tier string) []borderGrid {
 	// northing/easting documents with origin x != y, both corner conventions (the extent in x,y order must come out the same)
 	syn("syn-swapped-bottomleft", 1, 4, 1000, 2000.5, "bottomLeft", 1)
 	syn("syn-swapped-topleft", 2, 5, -300.25, 64, "topLeft", 0)
+	syn("syn-declared-bbox", 1, 4, 10, 266, "bottomLeft", 1) // declares a bounding box larger than its extent
 	real := func(id string, z int) {
 		dg, err := loadDocGeom(id)
 		if err != nil {
